@@ -103,7 +103,7 @@ class Worker(object):
             payload = ("unparsable", body)
         req = dict(t=w.clock.now, step=w.broker.step, cid=props.correlation_id, reply_to=props.reply_to,
                    payload=payload, n=len(self.requests), seq=next(w.broker.seq), expiration=props.expiration,
-                   redelivered=method.redelivered, worker=self.name, headers=props.headers)
+                   redelivered=method.redelivered, worker=self.name, headers=props.headers, op=len(w.broker.oplog))
         self.requests.append(req)
         ch.basic_ack(method.delivery_tag)
         result = self.behaviour(self, req)
